@@ -4,7 +4,7 @@
 From Coq Require Import List NArith ZArith Bool Lia.
 From Coq.Strings Require Import Byte.
 From RDPGW Require Import Lib.Bytes Gen.Consts Model.Utf16 Model.Packets Model.Processor Model.Policy
-  Spec.HostPolicy Spec.TunnelOrder Proofs.PolicyFacts Proofs.ProcessorFacts Proofs.ResponseFacts.
+  Spec.HostPolicy Spec.TunnelOrder Proofs.PolicyFacts Proofs.ProcessorFacts Proofs.ResponseFacts Gen.Facts.
 Import ListNotations.
 Open Scope N_scope.
 
@@ -95,3 +95,23 @@ Example C03_example_near_misses :
   (* a name with an embedded NUL decodes to a different string *)
   decode_utf16 [x68; x00; x00; x00; x31; x00; x00; x00] <> [x68; x31].
 Proof. repeat split; try (vm_compute; reflexivity). vm_compute. discriminate. Qed.
+
+(** The decisions of the transcribed functions, as the source has them now (regenerated by the
+    translator: conditions, case labels, returns, branches, go and defer statements in source order).
+    The model is a transcription of exactly this text. *)
+Theorem C03_decisions_as_transcribed :
+  DECISIONS_CheckHost =
+    [[x73; x77; x69; x74; x63; x68; x20; x48; x6f; x73; x74; x53; x65; x6c; x65; x63; x74; x69; x6f; x6e] (* switch HostSelection *);
+     [x63; x61; x73; x65; x20; x22; x61; x6e; x79; x22] (* case "any" *);
+     [x72; x65; x74; x75; x72; x6e; x20; x74; x72; x75; x65; x2c; x6e; x69; x6c] (* return true,nil *);
+     [x63; x61; x73; x65; x20; x22; x73; x69; x67; x6e; x65; x64; x22] (* case "signed" *);
+     [x72; x65; x74; x75; x72; x6e; x20; x66; x61; x6c; x73; x65; x2c; x65; x72; x72; x6f; x72; x73; x2e; x4e; x65; x77; x28; x22; x63; x61; x6e; x6e; x6f; x74; x20; x76; x65; x72; x69; x66; x79; x20; x68; x6f; x73; x74; x20; x69; x6e; x20; x27; x73; x69; x67; x6e; x65; x64; x27; x20; x6d; x6f; x64; x65; x20; x61; x73; x20; x74; x6f; x6b; x65; x6e; x20; x64; x61; x74; x61; x20; x69; x73; x20; x6d; x69; x73; x73; x69; x6e; x67; x22; x29] (* return false,errors.New("cannot verify host in 'signed' mode as token data is missing") *);
+     [x63; x61; x73; x65; x20; x22; x72; x6f; x75; x6e; x64; x72; x6f; x62; x69; x6e; x22; x2c; x22; x75; x6e; x73; x69; x67; x6e; x65; x64; x22] (* case "roundrobin","unsigned" *);
+     [x69; x66; x20; x73; x2e; x55; x73; x65; x72; x2e; x55; x73; x65; x72; x4e; x61; x6d; x65; x28; x29; x3d; x3d; x22; x22] (* if s.User.UserName()=="" *);
+     [x72; x65; x74; x75; x72; x6e; x20; x66; x61; x6c; x73; x65; x2c; x65; x72; x72; x6f; x72; x73; x2e; x4e; x65; x77; x28; x22; x6e; x6f; x20; x76; x61; x6c; x69; x64; x20; x73; x65; x73; x73; x69; x6f; x6e; x20; x69; x6e; x66; x6f; x20; x6f; x72; x20; x75; x73; x65; x72; x6e; x61; x6d; x65; x20; x66; x6f; x75; x6e; x64; x20; x69; x6e; x20; x63; x6f; x6e; x74; x65; x78; x74; x22; x29] (* return false,errors.New("no valid session info or username found in context") *);
+     [x69; x66; x20; x68; x3d; x3d; x68; x6f; x73; x74] (* if h==host *);
+     [x72; x65; x74; x75; x72; x6e; x20; x74; x72; x75; x65; x2c; x6e; x69; x6c] (* return true,nil *);
+     [x72; x65; x74; x75; x72; x6e; x20; x66; x61; x6c; x73; x65; x2c; x66; x6d; x74; x2e; x45; x72; x72; x6f; x72; x66; x28; x22; x69; x6e; x76; x61; x6c; x69; x64; x20; x68; x6f; x73; x74; x20; x25; x73; x22; x2c; x68; x6f; x73; x74; x29] (* return false,fmt.Errorf("invalid host %s",host) *);
+     [x72; x65; x74; x75; x72; x6e; x20; x66; x61; x6c; x73; x65; x2c; x65; x72; x72; x6f; x72; x73; x2e; x4e; x65; x77; x28; x22; x75; x6e; x72; x65; x63; x6f; x67; x6e; x69; x7a; x65; x64; x20; x68; x6f; x73; x74; x20; x73; x65; x6c; x65; x63; x74; x69; x6f; x6e; x20; x63; x72; x69; x74; x65; x72; x69; x61; x22; x29] (* return false,errors.New("unrecognized host selection criteria") *)].
+Proof. vm_compute. repeat split; reflexivity. Qed.
+Print Assumptions C03_decisions_as_transcribed.
